@@ -161,13 +161,14 @@ func (s *c44S3) EnsureBucket(ctx context.Context) error {
 
 // c44World is one primary bucket, one replica bucket and the dual client over them.
 type c44World struct {
-	p, r     *vfkit.ObjStore
-	pc, rc   *c44S3
-	dual     storage.S3Client
-	failP    map[string]bool // primary GETs of this key fail (endpoint trouble)
-	failR    map[string]bool // replica GETs of this key fail
-	stallR   map[string]c44Stall
-	failRAll bool
+	p, r      *vfkit.ObjStore
+	pc, rc    *c44S3
+	dual      storage.S3Client
+	failP     map[string]bool // primary GETs of this key fail (endpoint trouble)
+	failR     map[string]bool // replica GETs of this key fail
+	stallR    map[string]c44Stall
+	failRAll  bool
+	failPList bool // the primary's LIST fails (throttling / 5xx)
 }
 
 // c44CallerDeadline: the caller's own context is live for the whole read (1 h of the
@@ -180,6 +181,9 @@ func c44NewWorld() *c44World {
 	w.rc.stall = func(key string) c44Stall { return w.stallR[key] }
 	w.p.Fault = func(op vfkit.ObjOp) vfkit.FaultKind {
 		if strings.HasPrefix(op.Kind, "get") && w.failP[op.Key] {
+			return vfkit.FaultBefore
+		}
+		if op.Kind == "list" && w.failPList {
 			return vfkit.FaultBefore
 		}
 		return vfkit.FaultNone
@@ -262,6 +266,11 @@ func c44CheckRead(w *c44World, key string, rd c44Read) string {
 		// primary unreachable for this key: the statement fixes the bytes, not availability
 		if gotErr == nil && (wantErr != nil || !bytes.Equal(got, want)) {
 			return fmt.Sprintf("read %s of %q (primary failing) returned %d bytes %q; primary content gives (%q, err=%v)", rd, key, len(got), c44Short(got), c44Short(want), wantErr)
+		}
+		// the primary alone reports its own failure; a replica "not found" must not replace it
+		// (RestoreFromS3 treats a not-found index as an orphan to skip, a failure as retry)
+		if gotErr != nil && errors.Is(gotErr, storage.ErrNotFound) {
+			return fmt.Sprintf("read %s of %q: the primary is failing (not 'not found'), the dual client reports %v", rd, key, gotErr)
 		}
 		return ""
 	}
@@ -433,6 +442,17 @@ func c44CoreBody(t *testing.T, st *vfkit.Stats, known bool, keys []string) {
 						if msg := c44ReplicaClean(w); msg != "" {
 							t.Fatalf("replica states (%s,%s) read %s: %s", s0, s1, rd, msg)
 						}
+						// the same read while the primary endpoint fails for that key
+						w = c44NewWorld()
+						c44Apply(w, keys[0], s0, asIndex)
+						c44Apply(w, keys[1], s1, asIndex)
+						w.failP[key] = true
+						st.Eval()
+						st.Class("primary-failing:" + state)
+						st.NonTrivial("pfail", s0, s1, ki, asIndex, ri)
+						if msg := c44CheckRead(w, key, rd); msg != "" {
+							t.Fatalf("replica states (%s,%s), primary failing: %s", s0, s1, msg)
+						}
 					}
 				}
 			}
@@ -455,6 +475,33 @@ func c44CoreBody(t *testing.T, st *vfkit.Stats, known bool, keys []string) {
 			st.NonTrivial("routing-down", s0, s1)
 			if msg := c44CheckRouting(w, keys); msg != "" {
 				t.Fatalf("replica down, states (%s,%s): %s", s0, s1, msg)
+			}
+			// the primary's LIST fails: the failure must surface, whatever the replica could list
+			for _, variant := range []string{"as-is", "replica-extra-key", "replica-empty", "replica-down"} {
+				w = c44NewWorld()
+				c44Apply(w, keys[0], s0, false)
+				c44Apply(w, keys[1], s1, false)
+				switch variant {
+				case "replica-extra-key":
+					w.r.PokeRaw("default/t/0/segment-00000000000000000099.kfs", []byte("only-on-replica"))
+				case "replica-empty":
+					for k := range w.r.Snapshot() {
+						c44Remove(w.r, k)
+					}
+				case "replica-down":
+					w.failRAll = true
+				}
+				w.failPList = true
+				st.Eval()
+				st.Class("list-primary-fails:" + variant)
+				st.NonTrivial("list-pfail", s0, s1, variant)
+				got, err := w.dual.ListSegments(context.Background(), "default/t/")
+				if err == nil {
+					t.Fatalf("replica states (%s,%s), %s: the primary's LIST fails but ListSegments returned %s (primary holds %s)", s0, s1, variant, c44FmtList(got), c44ListOf(w.p, "default/t/"))
+				}
+				if msg := c44ReplicaClean(w); msg != "" {
+					t.Fatalf("replica states (%s,%s), %s, primary LIST failing: %s", s0, s1, variant, msg)
+				}
 			}
 		}
 	}
@@ -553,7 +600,7 @@ type c44Op struct {
 	Stall int
 }
 
-var c44OpKinds = []string{"upload", "upload", "replicate", "replicate", "read", "read", "read", "read", "delete", "replica-fail", "primary-fail", "replica-stall", "replica-stall", "list"}
+var c44OpKinds = []string{"upload", "upload", "replicate", "replicate", "read", "read", "read", "read", "delete", "replica-fail", "primary-fail", "replica-stall", "replica-stall", "list", "list", "primary-list-fail"}
 
 var c44Stalls = []c44Stall{{}, {Dur: time.Second}, {Dur: 1999 * time.Millisecond}, {Dur: 2 * time.Second}, {Dur: 3 * time.Second}, {Dur: 45 * time.Second},
 	{Dur: 10 * time.Minute}, {Dur: 3 * time.Second, Serve: true}, {Dur: 30 * time.Second, Serve: true}, {Hang: true}}
@@ -656,9 +703,21 @@ func c44RunHistory(st *vfkit.Stats, known bool, inits []string, ops []c44Op) str
 		case "replica-stall":
 			w.stallR[k] = c44Stalls[op.Stall]
 			trace = append(trace, fmt.Sprintf("rstall(%d,%s)", op.Key, c44Stalls[op.Stall]))
+		case "primary-list-fail":
+			w.failPList = op.On
+			trace = append(trace, fmt.Sprintf("plistfail(%v)", op.On))
 		case "list":
 			prefix := c44Prefixes[op.Pfx]
 			got, err := w.dual.ListSegments(ctx, prefix)
+			if w.failPList {
+				st.Class("list+primary-list-failing")
+				sawNonIdentical = true
+				trace = append(trace, "list(primary failing)")
+				if err == nil {
+					return fmt.Sprintf("ListSegments(%q) returned %s although the primary's LIST fails (primary holds %s)\nhistory: %v", prefix, c44FmtList(got), c44ListOf(w.p, prefix), trace)
+				}
+				break
+			}
 			if err != nil {
 				return fmt.Sprintf("ListSegments(%q) failed on a healthy primary: %v\nhistory: %v", prefix, err, trace)
 			}
